@@ -314,6 +314,9 @@ func init() {
 		shareOnly := fs.Bool("shareonly", false, "Share scenarios only (no connectables)")
 		_ = fs.Parse(args)
 		kernel.ShareOnly = *shareOnly
+		if *park {
+			kernel.ShareForcedShapes = 4
+		}
 		kernel.InstallHooks()
 		r := rand.New(rand.NewSource(*seed))
 		w, err := rec.NewWriter(*out)
